@@ -4,7 +4,8 @@ import json
 import os
 
 from .. import rt, stubs
-from ..engine import Harness
+from ..engine import Harness, Direct
+from . import tokfam
 from . import idxfam as F
 
 ID = "C04"
@@ -27,6 +28,7 @@ META = {
     "out": ["> 3 records", "> 3 queried nodes", "nodes that are not in the graph"],
     "assumptions": ["model file system with offset cookies; pickle round trip is the identity", "GAF reader stub for read_line(offset)"],
 }
+META["explanation"] += '  Segment names are mixed (s0, s1-alt, s1.2, b#0|x) and every second read name carries a comment after a blank (the documented cut).  tokens/cli/index.py: the path tokenizers of index.py decided as languages by z3.'
 
 # record menu: r0 visits s0 twice; nobody aligns to s2
 WALKS = [">s0>s1>s0", ">s1>a1", "<b0<s1"]
@@ -57,6 +59,7 @@ def harnesses(tier):
     for form in ("unstable", "stable"):
         for gz in (0, 1):
             hs.append({"id": "whole/%s/%s" % (form, "bgzf" if gz else "text"), "params": {"kind": "whole", "form": form, "gz": gz}, "timeout": 300})
+    hs.append(tokfam.harness("C04", "gaftools/cli/index.py"))
     return hs
 
 
@@ -67,17 +70,24 @@ def pick(sel, options):
     return options[-1]
 
 
-def fields_equal(a, b):
+def fields_equal(a, b, whole_name_ok=False):
     fa, fb = a.rstrip("\n").split("\t"), b.rstrip("\n").split("\t")
     if len(fa) != len(fb):
         return False
-    for x, y in zip(fa, fb):
+    for k, (x, y) in enumerate(zip(fa, fb)):
+        if k == 0:
+            # read names are concrete text; the documented cut at the first blank
+            if str(x) == str(y).split(" ")[0] or (whole_name_ok and str(x) == str(y)):
+                continue
+            return False
         if not (x == y):
             return False
     return True
 
 
 def build(params):
+    if params.get("kind") == "tokens":
+        return Direct(lambda: tokfam.run(params))
     form = params["form"]
     n = len(WALKS)
     args = []
@@ -118,7 +128,7 @@ def build(params):
             if len(out) != n:
                 return "whole-file view wrote %d lines for %d records" % (len(out), n)
             for i in range(n):
-                if not fields_equal(out[i], lines[i]):
+                if not fields_equal(out[i], lines[i], whole_name_ok=True):
                     return "whole-file view changed record %d" % i
             return None
         query = [pick(a[3 * n + 1 + i], UNIVERSE) for i in range(params["qlen"])]
@@ -127,7 +137,7 @@ def build(params):
         if params["fmt"]:
             fmt = "stable" if form == "unstable" else "unstable"
         try:
-            V.run("in.gaf", gfa="g.gfa", output="o.gaf", index=(None if params.get("default_index") else "in.gaf.gvi"), nodes=list(query), format=fmt)
+            V.run("in.gaf", gfa="g.gfa", output="o.gaf", index=(None if params.get("default_index") else "in.gaf.gvi"), nodes=[F.nm(q) for q in query], format=fmt)
             raised = False
         except C.CommandLineError:
             raised = True
@@ -157,6 +167,8 @@ def build(params):
 
 
 def replay(params, model, wd):
+    if params.get("kind") == "tokens":
+        return tokfam.replay(params, model, wd)
     import gaftools.cli.index as I
     import gaftools.cli.view as V
     from gaftools.cli import CommandLineError
@@ -191,7 +203,7 @@ def replay(params, model, wd):
 
         gc.collect()
         got = open(out).read().splitlines()
-        bad = got != lines
+        bad = got != lines and got != [F.cut_name(l) for l in lines]
         return {"reproduced": bad, "key": "C04:whole-file", "what": "view without selection wrote %r" % (got,), "files": files}
     query = [UNIVERSE[a[3 * n + 1 + i]] for i in range(params["qlen"])]
     want = [i for i, w in enumerate(WALKS) if any(nn in query for _, nn in F.parse_walk(w))]
@@ -200,7 +212,7 @@ def replay(params, model, wd):
         fmt = "stable" if form == "unstable" else "unstable"
     res = "ok"
     try:
-        V.run(gaf, gfa=gfa, output=out, nodes=list(query), format=fmt)
+        V.run(gaf, gfa=gfa, output=out, nodes=[F.nm(q) for q in query], format=fmt)
     except CommandLineError:
         res = "nothing-found"
     except BaseException as e:  # noqa
@@ -225,7 +237,7 @@ def replay(params, model, wd):
         return {"reproduced": True, "key": "C04:" + key, "what": "view -n %s printed %r, expected %r" % (" -n ".join(query), names, wantn), "files": files}
     if fmt is None:
         for l, i in zip(got, want):
-            if l != lines[i]:
+            if l != F.cut_name(lines[i]):
                 return {"reproduced": True, "key": "C04:content", "what": "record r%d printed as %r, input %r" % (i, l, lines[i]), "files": files}
     else:
         allo = os.path.join(wd, "all.gaf")
